@@ -38,6 +38,8 @@ def run(C, R):
         E = C.engine(cfg)
         CG = C.cg(cfg)
         R.configs.append(cfg)
+        from common import wrapper_discipline
+        R.floor('C02.W wrapper-paths[%s]' % cfg, wrapper_discipline(C, R, cfg, ['sync::mutex::MutexState'], 'C02.W'), 2)
         F.adt(STATE)
         # ---- R1: guard construction sites
         sites = [(fn, s) for fn, s, cl in scan_aggregates(F, GUARD) if not cl]
